@@ -7,6 +7,9 @@ open Afkak.Consumer Afkak.Monitor Afkak.Consts
 
 variable [EnvHyp]
 
+-- every leaf lemma checks nine invariant components on every path of a handler
+set_option maxHeartbeats 800000
+
 /-- a commit result is never ConsumerFetchSizeTooSmall -/
 def DRes.nts (r : DRes) : Prop := ∀ f, r = .err f → f ≠ .tooSmall
 
